@@ -3,7 +3,7 @@
 # quick checks of the properties that depend on the mutated file are run (side by side); appends to /tmp/mut/eval.log
 cd /verif
 touch /tmp/mut/eval.log
-for d in $(ls /tmp/mut/survivors/*.diff | sort -V); do
+for d in $(cat /tmp/mut/order.txt); do
   b=$(basename $d)
   grep -q "^$b " /tmp/mut/eval.log && continue
   f=$(grep -m1 '^+++ b/' $d | cut -c7-)
